@@ -181,16 +181,19 @@ def drive_b(rec, part, count):
                        "res": [[int(v) for v in g] for g in got], "_what": label})
         # the same product with every matrix coefficient times 2^32 (or 2^20, 2^33): exactly the recorded result times that factor - a
         # coefficient whose low half is zero is still a coefficient
-        if it % 4 == 1 and nrows <= 17 and rs:
+        if it % 2 == 1 and nrows <= 17 and rs:
             sh = rng.choice([32, 32, 20, 33])
-            got2, why2 = vmp_run(L, mods[(n, mask)], n, [[x << sh for x in v] for v in mat], nrows, ncols, a, rs, entry, rng, a_pad=a_pad,
+            which = rng.choice(["matrix", "vector"])
+            mat2 = [[x << sh for x in v] for v in mat] if which == "matrix" else mat
+            a2 = a if which == "matrix" else [[x << sh for x in v] for v in a]
+            got2, why2 = vmp_run(L, mods[(n, mask)], n, mat2, nrows, ncols, a2, rs, entry, rng, a_pad=a_pad,
                                  off=rng.choice([0, 8]), a_fill=a_fill)
-            rec.case(("B-scaled", entry, mask, n, sh))
+            rec.case(("B-scaled", entry, mask, n, sh, which))
             if got2 is None:
-                rec.violation(label + " with the matrix times 2^%d: %s" % (sh, why2), {"N": n})
+                rec.violation(label + " with the %s times 2^%d: %s" % (which, sh, why2), {"N": n})
             elif any(not np.array_equal(g2, g * (1 << sh)) for g2, g in zip(got2, got)):
-                rec.violation(label + ": with every matrix coefficient times 2^%d the product is not the recorded product times 2^%d" % (sh, sh),
-                              {"N": n, "nrows": nrows, "ncols": ncols, "shift": sh})
+                rec.violation(label + ": with every %s coefficient times 2^%d the product is not the recorded product times 2^%d" % (which, sh, sh),
+                              {"N": n, "nrows": nrows, "ncols": ncols, "shift": sh, "scaled": which})
     rec.data["events"] = events
 
 
